@@ -63,8 +63,11 @@ fn body_digest<T: Serialize>(b: &T) -> u64 {
 /// Generate an explicit fault-free history by running it (adaptive generation needs the state).
 fn gen_history(rng: Rng, cfg: &RunCfg, focus: u32) -> Option<Vec<Step>> {
     let r = run_hist(cfg, StepSrc::Gen(Gen::new(rng)), &HistOpts { focus, snapshot: false, trace: false, huge_hints: false, alloc_faults: false });
+    // if the generating run itself diverges, the steps up to and including the diverging one
+    // are still a perfectly good explicit history: the twin comparison decides what it means
     match r.end {
         RunEnd::Clean => Some(r.steps),
+        _ if focus == C18 && !r.steps.is_empty() => Some(r.steps),
         _ => None,
     }
 }
@@ -366,65 +369,61 @@ pub fn run_hash_case(b: &HashBody) -> Result<HashOut, String> {
     ledger_reset();
     disarm_all();
     let mut out = HashOut { fail: None, tie_divergences: 0 };
-    let mut reference: Option<(HasherKind, Vec<Result<(u64, u64), String>>)> = None;
+    // per hasher: the trace of (exact, loose) digests and the first oracle failure / panic, if any
+    struct Run {
+        trace: Vec<(u64, u64)>,
+        bad: Option<(usize, String)>,
+    }
+    let mut runs: Vec<Run> = Vec::new();
     for (hi, h) in b.hashers.iter().enumerate() {
         let ctor = b.ctors.get(hi).copied().unwrap_or(b.cfg.ctor);
-        let mut inst = match Inst::new(&b.cfg, ctor, *h) {
-            Ok(i) => i,
-            Err(p) => {
-                out.fail = Some(frec("C18", "hasher_dependent_panic", format!("constructing with {:?} under hasher {:?}: {}", ctor, h, p), 0));
-                return Ok(out);
-            }
-        };
-        let mut trace: Vec<Result<(u64, u64), String>> = Vec::new();
-        for st in &b.steps {
-            match inst.step(st, *h) {
-                Ok((e, l, fails)) => {
-                    if let Some(f) = fails.iter().find(|f| f.props & (C01 | C02 | C03 | C04 | C12) != 0) {
-                        if hi == 0 {
-                            return Err(format!("foreign divergence under the reference hasher: {}", f.msg));
+        let mut run = Run { trace: Vec::new(), bad: None };
+        match Inst::new(&b.cfg, ctor, *h) {
+            Err(p) => run.bad = Some((0, format!("constructor {:?} panicked: {}", ctor, p))),
+            Ok(mut inst) => {
+                for st in &b.steps {
+                    match inst.step(st, *h) {
+                        Ok((e, l, fails)) => {
+                            if let Some(f) = fails.iter().find(|f| f.props & (C01 | C02 | C03 | C04 | C12) != 0) {
+                                run.bad = Some((run.trace.len(), format!("[{}] {}", f.class, f.msg)));
+                                break;
+                            }
+                            run.trace.push((e, l));
                         }
-                        out.fail = Some(frec("C18", "hasher_dependent_behaviour", format!("under hasher {:?} step {} ({:?}) fails [{}] {} — it passed under {:?}", h, trace.len(), st, f.class, f.msg, b.hashers[0]), trace.len()));
-                        return Ok(out);
+                        Err(p) => {
+                            run.bad = Some((run.trace.len(), format!("panicked: {}", p)));
+                            break;
+                        }
                     }
-                    trace.push(Ok((e, l)));
-                }
-                Err(p) => {
-                    trace.push(Err(p));
-                    break;
                 }
             }
         }
-        drop(inst);
-        match &reference {
-            None => {
-                if trace.iter().any(|t| t.is_err()) {
-                    return Err("the reference hasher's run panicked".into());
-                }
-                reference = Some((*h, trace));
+        runs.push(run);
+    }
+    // behaviour that is right under one hasher and wrong under another depends on the hasher
+    let good = runs.iter().position(|r| r.bad.is_none());
+    let bad = runs.iter().position(|r| r.bad.is_some());
+    match (good, bad) {
+        (None, _) => return Err(format!("every hasher fails (not a hasher dependence): {}", runs[0].bad.as_ref().unwrap().1)),
+        (Some(g), Some(x)) => {
+            let (step, msg) = runs[x].bad.clone().unwrap();
+            out.fail = Some(frec("C18", "hasher_dependent_behaviour", format!("under hasher {:?} step {} ({:?}) fails: {} — the same history passes under {:?}", b.hashers[x], step, b.steps.get(step), msg, b.hashers[g]), step));
+            return Ok(out);
+        }
+        _ => {}
+    }
+    let t0 = &runs[0].trace;
+    for (hi, r) in runs.iter().enumerate().skip(1) {
+        for (i, (a, x)) in t0.iter().zip(r.trace.iter()).enumerate() {
+            if a.1 != x.1 {
+                out.fail = Some(frec("C18", "hasher_dependent_return", format!("step {} ({:?}) returns different values under hasher {:?} and under {:?}", i, b.steps[i], b.hashers[0], b.hashers[hi]), i));
+                return Ok(out);
             }
-            Some((h0, t0)) => {
-                for (i, (a, x)) in t0.iter().zip(trace.iter()).enumerate() {
-                    match (a, x) {
-                        (Ok(a), Ok(x)) => {
-                            if a.1 != x.1 {
-                                out.fail = Some(frec("C18", "hasher_dependent_return", format!("step {} ({:?}) returns different values under hasher {:?} and under {:?}", i, b.steps[i], h0, h), i));
-                                return Ok(out);
-                            }
-                            if a.0 != x.0 {
-                                // a different choice among equal priorities: allowed; the
-                                // histories may legitimately differ from here on
-                                out.tie_divergences += 1;
-                                break;
-                            }
-                        }
-                        (_, Err(p)) => {
-                            out.fail = Some(frec("C18", "hasher_dependent_panic", format!("step {} ({:?}) panics under hasher {:?} but not under {:?}: {}", i, b.steps[i], h, h0, p), i));
-                            return Ok(out);
-                        }
-                        _ => {}
-                    }
-                }
+            if a.0 != x.0 {
+                // a different choice among equal priorities: allowed; the histories may
+                // legitimately differ from here on
+                out.tie_divergences += 1;
+                break;
             }
         }
     }
